@@ -244,7 +244,7 @@ impl Prop for C09 {
         "exploration"
     }
     fn rule(&self) -> String {
-        "run = one writer call sequence over a 19-symbol alphabet {start(fresh | duplicate | empty | 65536-byte | 65537-byte name), add(fresh | duplicate | 65537-byte name), append(to the most recently opened file from an exact | short | longer source; to the oldest open file; to an ended file; to a never-issued id), end(open | ended | never-issued id), flush, finalize}. ALL sequences of length 1..3 (quick) / 1..4 (thorough) are enumerated on the s0 build without layers; then 132 runs with ONE append whose source ends exactly on j x 2^e bytes (e = 12..22, j = 1..3; production constants, all layer sets) while 1 byte, half a unit, a unit or several units more were announced - the edge of whatever copy buffer lies on the path; the remaining runs are seeded sequences of length 5..40 on all variants and layer sets with seeded piece sizes, in which 'duplicate', 'open' and 'ended' mean ANY earlier name / open file / ended file two times in three (the most recent one otherwise). A model interprets the sequence: which calls must be refused (duplicate or over-long name, file not open, anything after finalize, finalize with open files), what the archive described by the accepted calls is. Oracle: the library refuses exactly those calls; a short source is never Ok; afterwards the harness ends the open files and finalizes, and the archive must read back to the model that ignored the refused calls (listing, sizes, bytes, hashes), repair of it must give the same files and linear extraction must agree. After a short source the archive counts as poisoned: only no-panic is demanded. distinct_nontrivial = distinct (variant, layers, multiset of (symbol, outcome) pairs, final state) signatures.".into()
+        "run = one writer call sequence over a 19-symbol alphabet {start(fresh | duplicate | empty | 65536-byte | 65537-byte name), add(fresh | duplicate | 65537-byte name), append(to the most recently opened file from an exact | short | longer source; to the oldest open file; to an ended file; to a never-issued id), end(open | ended | never-issued id), flush, finalize}. ALL sequences of length 1..3 (quick) / 1..4 (thorough) are enumerated on the s0 build without layers; then 132 runs with ONE append whose source ends exactly on j x 2^e bytes (e = 12..22, j = 1..3; production constants, all layer sets) while 1 byte, half a unit, a unit or several units more were announced - the edge of whatever copy buffer lies on the path; the remaining runs are seeded sequences of length 5..40 on all variants and layer sets with seeded piece sizes, in which 'duplicate', 'open' and 'ended' mean ANY earlier name / open file / ended file two times in three (the most recent one otherwise). A model interprets the sequence: which calls must be refused (duplicate or over-long name, file not open, anything after finalize, finalize with open files), what the archive described by the accepted calls is. Oracle: the library refuses exactly those calls; a short source is never Ok; afterwards the harness ends the open files and finalizes, and the archive must read back to the model that ignored the refused calls (listing, sizes, bytes, hashes), repair of it must give the same files and linear extraction must agree; on the hook variants (randomness pinned) the archive must also be BYTE-IDENTICAL to the one written from the accepted calls only. After a short source the archive counts as poisoned: only no-panic is demanded. distinct_nontrivial = distinct (variant, layers, multiset of (symbol, outcome) pairs, final state) signatures.".into()
     }
     fn assumptions(&self) -> Vec<String> {
         vec!["a source longer than announced is legal (the first `size` bytes are kept); flush after finalize is not a refused call".into()]
@@ -372,6 +372,23 @@ impl Prop for C09 {
             let refused: BTreeSet<String> = ex.iter().enumerate().filter(|(_, e)| **e == Expect::Refuse).map(|(i, _)| sym_of(&case.ops[i], &case.ops[..i])).collect();
             x.class = format!("{}|refused={}", x.class, refused.into_iter().collect::<Vec<_>>().join("+"));
             v.push(x);
+        }
+        if any_refused && !bad && s.consts().hooks && (case.cfg.rng_seed != 0 || !case.cfg.enc()) {
+            // 'the final archive equals the one built without the refused calls': with the randomness pinned (hook
+            // variants) the two archives must be the same BYTES, not only read back alike
+            let ops2: Vec<WOp> = ops.iter().enumerate().filter(|(i, _)| *i >= n_seq || ex[*i] != Expect::Refuse).map(|(_, o)| o.clone()).collect();
+            let sink2 = SimSink::new(&Sched::Full);
+            let w2 = s.write(&case.cfg, &ops2, sink2.clone());
+            ctx.eval();
+            if w2.panic.is_none() && w2.from_config_err.is_none() && w2.results.iter().all(Result::is_ok) {
+                let other = sink2.data();
+                if other != *image {
+                    let refused: BTreeSet<String> = ex.iter().enumerate().filter(|(_, e)| **e == Expect::Refuse).map(|(i, _)| sym_of(&case.ops[i], &case.ops[..i])).collect();
+                    v.push(Violation::new("refused-call-changed-archive-bytes", format!("bytes|refused={}", refused.into_iter().collect::<Vec<_>>().join("+")), format!("the archive built with the refused calls ({} bytes) differs from the one built from the accepted calls only ({} bytes), first difference at {}", image.len(), other.len(), first_diff(&image, &other))));
+                }
+            } else {
+                v.push(Violation::new("valid-call-refused", "accepted-only", format!("the sequence without its refused calls does not write: {:?} {:?}", w2.panic, w2.results.iter().find(|r| r.is_err()))));
+            }
         }
         if !bad {
             // repair and linear extraction agree
